@@ -183,9 +183,12 @@ class PresetOptimizer(BaseModel):
         self, reference_stat: Stat, weapon_potential_tiers
     ) -> Tuple[Potential, Potential, Potential]:
         with Timer("weapon potential"):
+            weapon_tiers, sub_weapon_tiers, emblem_tiers = weapon_potential_tiers
             potentials = WeaponPotentialOptimizer(
                 default_stat=reference_stat,
-                tiers=weapon_potential_tiers,
+                tiers=weapon_tiers,
+                sub_weapon_tiers=sub_weapon_tiers,
+                emblem_tiers=emblem_tiers,
                 damage_logic=self.damage_logic,
             ).get_full_optimal_potential()
 
@@ -223,7 +226,7 @@ class PresetOptimizer(BaseModel):
         preset.gearset.change_weaponry_potentials(
             self.calculate_optimal_weapon_potential(
                 preset.get_stat() + self.default_stat,
-                preset.gearset.weapon_potential_tiers[0],
+                preset.gearset.weapon_potential_tiers,
             )
         )
 
